@@ -64,7 +64,7 @@ RISKY = ("mbox-attachment", "nested-rfc822", "fold-at-encoded-word", "date-secon
 _direct_cache: dict = {}
 
 
-VOLATILE_META = {"XlsxContent": ("created", "modified")}   # filled with now() when the workbook has none: C06's concern
+VOLATILE_META: dict = {}   # per class: metadata keys that are not a function of the bytes (none on the current tree)
 
 
 def _canon(result) -> dict:
@@ -347,10 +347,6 @@ def load_fixtures() -> dict:
             "pdf": ["pdf/wirecard-annual-report-2018-page190.pdf", "pdf/large_table_1.pdf"],
             "xlsx": ["modern_ms/mwe.xlsx", "modern_ms/Country_Codes_and_Names.xlsx", "modern_ms/empty_row_columns.xlsx"]}
     return {k: [(n, (root / n).read_bytes()) for n in v] for k, v in pick.items()}
-
-
-def feature_of(spec: dict) -> str:
-    return spec.get("risky") or "clean"
 
 
 def build_case(rng, tok, fx, n_msgs: int, risky: str | None, cid: int, stats=None) -> dict:
